@@ -64,7 +64,7 @@ pred BalSInv(r *balanceSingleReporter) := r != nil && r.output != nil && TreeInv
 func newBalanceReporter returns (r)
   props C03 C08 C17
   requires @tree TreeInv()
-  modifies ghost(bufSink, bufSticky, tnodes, tdepth, tmax, tmapOf, jlen)
+  modifies ghost(bufSink, bufSticky, tnodes, tdepth, tmax, tmapOf, jlen, tvLen, tv, tseg, tvSet)
   ensures @fresh fresh(r) && fresh(r.output) && BalInv(r) && r.db == db
   ensures @nodes-kept forall n *shared.TreeNode :: {n in tnodes} old(n in tnodes) ==> n in tnodes
   ensures @sink [C17] bufSink == store(old(bufSink), r.output, payload(config.Output)) && bufSticky == store(old(bufSticky), r.output, false)
@@ -74,7 +74,7 @@ func (*balanceReporter).Process returns (err)
   props C03 C08 C17
   requires @args ln != nil && BalInv(r)
   modifies heap(shared.TreeNode), maps(string, *shared.TreeNode)
-  modifies ghost(tnodes, tdepth, tmax, tmapOf, jlen)
+  modifies ghost(tnodes, tdepth, tmax, tmapOf, jlen, tvLen, tv, tseg, tvSet)
   ensures @inv BalInv(r) && err == nil && r.output == old(r.output) && r.root == old(r.root)
   ensures @nodes-kept forall n *shared.TreeNode :: {n in tnodes} old(n in tnodes) ==> n in tnodes
   loop 1 {
@@ -92,7 +92,7 @@ func (*balanceReporter).Flush returns (err)
 func newBalanceReporterCollapsed returns (r)
   props C03 C08 C17
   requires @tree TreeInv()
-  modifies ghost(bufSink, bufSticky, tnodes, tdepth, tmax, tmapOf, jlen)
+  modifies ghost(bufSink, bufSticky, tnodes, tdepth, tmax, tmapOf, jlen, tvLen, tv, tseg, tvSet)
   ensures @fresh fresh(r) && fresh(r.output) && BalCInv(r) && r.db == db
   ensures @nodes-kept forall n *shared.TreeNode :: {n in tnodes} old(n in tnodes) ==> n in tnodes
   ensures @sink [C17] bufSink == store(old(bufSink), r.output, payload(config.Output)) && bufSticky == store(old(bufSticky), r.output, false)
@@ -102,7 +102,7 @@ func (*balanceReporterCollapsed).Process returns (err)
   props C03 C08 C17
   requires @args ln != nil && BalCInv(r)
   modifies heap(shared.TreeNode), maps(string, *shared.TreeNode)
-  modifies ghost(tnodes, tdepth, tmax, tmapOf, jlen)
+  modifies ghost(tnodes, tdepth, tmax, tmapOf, jlen, tvLen, tv, tseg, tvSet)
   ensures @inv BalCInv(r) && err == nil && r.output == old(r.output) && r.root == old(r.root)
   ensures @nodes-kept forall n *shared.TreeNode :: {n in tnodes} old(n in tnodes) ==> n in tnodes
   loop 1 {
@@ -120,7 +120,7 @@ func (*balanceReporterCollapsed).Flush returns (err)
 func newBalanceSingleReporter returns (r)
   props C03 C08 C17 C07
   requires @tree TreeInv() && DBIs(db)
-  modifies ghost(bufSink, bufSticky, tnodes, tdepth, tmax, tmapOf, jlen)
+  modifies ghost(bufSink, bufSticky, tnodes, tdepth, tmax, tmapOf, jlen, tvLen, tv, tseg, tvSet)
   ensures @fresh fresh(r) && fresh(r.output) && BalSInv(r) && r.db == db && r.total == 0.0 && r.singleElement == config.SingleElement
   ensures @nodes-kept forall n *shared.TreeNode :: {n in tnodes} old(n in tnodes) ==> n in tnodes
   ensures @sink [C17] bufSink == store(old(bufSink), r.output, payload(config.Output)) && bufSticky == store(old(bufSticky), r.output, false)
@@ -130,7 +130,7 @@ func (*balanceSingleReporter).Process returns (err)
   props C03 C08 C17 C07
   requires @args ln != nil && BalSInv(r)
   modifies *r, heap(shared.TreeNode), maps(string, *shared.TreeNode)
-  modifies ghost(tnodes, tdepth, tmax, tmapOf, jlen)
+  modifies ghost(tnodes, tdepth, tmax, tmapOf, jlen, tvLen, tv, tseg, tvSet)
   ensures @inv BalSInv(r) && err == nil && r.output == old(r.output) && r.root == old(r.root) && r.db == old(r.db) && r.singleElement == old(r.singleElement)
   ensures @nodes-kept forall n *shared.TreeNode :: {n in tnodes} old(n in tnodes) ==> n in tnodes
   // the grand total grows by exactly the day's contribution to the chosen element - the same figures as the
@@ -169,7 +169,7 @@ func (*balanceSingleReporter).Flush returns (err)
 func getReporter returns (r)
   props C03 C08 C17
   requires @tree TreeInv() && DBIs(db)
-  modifies ghost(bufSink, bufSticky, tnodes, tdepth, tmax, tmapOf, jlen)
+  modifies ghost(bufSink, bufSticky, tnodes, tdepth, tmax, tmapOf, jlen, tvLen, tv, tseg, tvSet)
   ensures @reporter RepInv(r) && fresh(RepBuf(r)) && RepBookBelow(r, alloc())
   ensures @sink [C17] bufSink == store(old(bufSink), RepBuf(r), payload(config.Output)) && bufSticky == store(old(bufSticky), RepBuf(r), false)
 
@@ -187,7 +187,7 @@ func Balance returns (err)
   requires @streams logStream != nil && dbStream != nil
   requires @sink bc.ReporterConfig.Output != nil && !typeis(bc.ReporterConfig.Output, "*bufio.Writer") && !typeis(bc.ReporterConfig.Output, "*encoding/csv.Writer") && TreeInv()
   modifies *
-  modifies ghost(cbLen, cbErr, cbNode, cbStop, cbRet, cbLineNo, cbLine, cbHeader, cbElems, cbNElems, scRd, scPos, privLo, evOf, accKey, accP, accN, accH, bufSink, bufSticky, sinkFailed, sinkPend, prLen, prSink, prArg, prArgs, csvLen, csvW, csvN, csvRow, tnodes, tdepth, tmax, tmapOf, jlen, procLen, procTime, procSrc)
+  modifies ghost(cbLen, cbErr, cbNode, cbStop, cbRet, cbLineNo, cbLine, cbHeader, cbElems, cbNElems, scRd, scPos, privLo, evOf, accKey, accP, accN, accH, bufSink, bufSticky, sinkFailed, sinkPend, prLen, prSink, prArg, prArgs, csvLen, csvW, csvN, csvRow, tnodes, tdepth, tmax, tmapOf, jlen, tvLen, tv, tseg, tvSet, procLen, procTime, procSrc)
   let out := payload(bc.ReporterConfig.Output)
   let lrd := payload(logStream)
   let drd := payload(dbStream)
